@@ -186,6 +186,26 @@ def pushAll : Text → List Text → Option Text
     let h ← (path_mut b).push s
     pushAll h.buffer ss
 
+/-- the path part of `relative_to`, once schemes and authorities agree: `..` for every remaining
+segment of the base's directory, then the remaining segments of `a`; query and fragment of `a` -/
+def relative_body (a other : Text) : Option Text :=
+  let self_segments := Path.normalized_segments (path a)
+  let base_segments := Path.normalized_segments (Path.parent_or_empty (path other))
+  let sameAbs := Path.is_absolute (path a) == Path.is_absolute (path other)
+  if sameAbs && dropCommonPanics self_segments base_segments then none
+  else
+    let (ss, bs) := if sameAbs then dropCommon self_segments base_segments
+                    else (self_segments, base_segments)
+    do
+      let r1 ← pushAll [] (bs.map fun _ => [cDot, cDot])
+      let r2 ← pushAll r1 ss
+      let r3 ←
+        if ((query a).isSome || (fragment a).isSome)
+            && some (path r2) == Path.last (path other)
+        then ((path_mut r2).clear).map (·.buffer) else some r2
+      let r4 ← set_query r3 (query a)
+      set_fragment r4 (fragment a)
+
 /-- `RiRefImpl::relative_to` (on references) -/
 def relative_to (a other : Text) : Option Text :=
   let sa := scheme_opt a
@@ -203,23 +223,7 @@ def relative_to (a other : Text) : Option Text :=
     match authCmp with
     | none => none
     | some false => some a
-    | some true =>
-      let self_segments := Path.normalized_segments (path a)
-      let base_segments := Path.normalized_segments (Path.parent_or_empty (path other))
-      let sameAbs := Path.is_absolute (path a) == Path.is_absolute (path other)
-      if sameAbs && dropCommonPanics self_segments base_segments then none
-      else
-        let (ss, bs) := if sameAbs then dropCommon self_segments base_segments
-                        else (self_segments, base_segments)
-        do
-          let r1 ← pushAll [] (bs.map fun _ => [cDot, cDot])
-          let r2 ← pushAll r1 ss
-          let r3 ←
-            if ((query a).isSome || (fragment a).isSome)
-                && some (path r2) == Path.last (path other)
-            then ((path_mut r2).clear).map (·.buffer) else some r2
-          let r4 ← set_query r3 (query a)
-          set_fragment r4 (fragment a)
+    | some true => relative_body a other
 
 /-- `RiRefImpl::suffix` -/
 def suffix (a prefix_ : Text) : Option (Option (Text × Option Text × Option Text)) :=
